@@ -108,6 +108,11 @@ pub struct StreamSt {
     pub polls: u64,
     pub taken: u64,
     pub waker: vnet::WakeSlot,
+    /// the stream has answered `Ready(None)`
+    pub finished: bool,
+    /// polls made after that (the `Stream` contract leaves their outcome open: `futures::stream::unfold` panics,
+    /// other streams stay pending for ever; a server must not rely on a reply stream being fused)
+    pub polled_after_end: u64,
 }
 pub type StreamRef = Rc<RefCell<StreamSt>>;
 
@@ -123,6 +128,10 @@ impl Stream for CtlStream {
     fn poll_next(self: Pin<&mut Self>, cx: &mut Context<'_>) -> Poll<Option<Self::Item>> {
         let mut st = self.st.borrow_mut();
         st.polls += 1;
+        if st.finished {
+            st.polled_after_end += 1;
+            return Poll::Ready(None);
+        }
         if let Some((n, c)) = st.queue.pop_front() {
             st.taken += 1;
             return Poll::Ready(Some(
@@ -130,6 +139,7 @@ impl Stream for CtlStream {
             ));
         }
         if st.closed {
+            st.finished = true;
             Poll::Ready(None)
         } else {
             st.waker.register(cx);
@@ -430,6 +440,8 @@ pub struct WorldOut {
     pub total_polls: usize,
     /// wake-driven mode: number of times the server's waker fired
     pub wakes: u64,
+    /// service-side reply streams that were polled again after they had answered `Ready(None)`: (client, seq), polls
+    pub polled_after_end: Vec<((u32, u32), u64)>,
 }
 
 fn progress_sig(sh: &Shared) -> (usize, usize, usize, usize, u64, usize, usize) {
@@ -578,6 +590,9 @@ pub fn run_world(cfg: &WorldCfg) -> WorldOut {
         for (k, st) in &sh.borrow().streams {
             let st = st.borrow();
             out.streams.insert(*k, (st.attached, st.dropped, st.taken, st.queue.len()));
+            if st.polled_after_end > 0 {
+                out.polled_after_end.push((*k, st.polled_after_end));
+            }
         }
     }
     // the server future (and with it every connection) is dropped here
@@ -1017,6 +1032,11 @@ pub fn check_reference(prop: &str, scn: &Scenario, out: &WorldOut, stats: &mut B
     if out.no_quiescence {
         v.push((format!("{prop}/server-never-quiescent"), "10000 polls without reaching a point where nothing changes".into()));
         return v;
+    }
+    // A reply stream that has ended must be left alone: what a second poll does is up to the stream (unfold panics,
+    // others never answer again), so the connection behind it would never take calls again.
+    if let Some(((client, seq), n)) = out.polled_after_end.first() {
+        v.push((format!("{prop}/reply-stream-polled-again-after-it-ended"), format!("the stream answering call #{seq} of conn{client} was polled {n} more time(s) after it had returned None")));
     }
     let final_tick = u64::MAX;
     for (i, c) in scn.conns.iter().enumerate() {
